@@ -85,10 +85,22 @@ def rDef : Definition → String
 def rDoc (d : Document) : String := s!"doc({rList rDef d.defs}{rLoc d.loc})"
 
 /-- `{"tokens":[…tokens that lexed…], "lazy":true}`: the text has a malformed lexeme after these tokens -/
+def complJson (pre : List Token) : Json :=
+  match Grammar.certifiedCompletion pre with
+  | some ts => Json.arr (ts.map (fun t => Json.arr #[Json.num t.kind.toNat, Json.str t.value])).toArray
+  | none => Json.str "none"
+
 def handleLazy (toks : List Token) : Json :=
+  -- index of the first token that is not part of a viable prefix (|toks| when the lexical error wins), the D-03b flag
+  let (k, bad) : Nat × Bool := match Parser.parseDocument (Parser.initState toks (Parser.freshEOF toks)) with
+    | .ok (_, σ) => (toks.length, σ.bad)
+    | .error (.syntax _ b left) => (toks.length - left, b)
+    | .error _ => (toks.length, true)
+  let extra := [("blame", Json.num k), ("completion", if bad then Json.null else complJson (toks.take k)),
+    ("certified", Json.bool (Grammar.certifiedCompletion (toks.take k)).isSome)]
   match Parser.parseLazy toks with
-  | .lexError => Json.mkObj [("lazy", Json.mkObj [("kind", Json.str "lex"), ("pos", Json.null)])]
-  | .syntax p => Json.mkObj [("lazy", Json.mkObj [("kind", Json.str "syntax"), ("pos", Json.num p)])]
+  | .lexError => Json.mkObj ([("lazy", Json.mkObj [("kind", Json.str "lex"), ("pos", Json.null)])] ++ extra)
+  | .syntax p => Json.mkObj ([("lazy", Json.mkObj [("kind", Json.str "syntax"), ("pos", Json.num p)])] ++ extra)
   | .fuel => Json.mkObj [("lazy", Json.mkObj [("kind", Json.str "fuel"), ("pos", Json.null)])]
 
 def handle (j : Json) : Except String Json := do
@@ -115,13 +127,20 @@ def handle (j : Json) : Except String Json := do
     let (pos, fuel) : Json × Bool := match e with
       | .syntax p _ _ => (Json.num p, false)
       | .fuel => (Json.null, true)
-      | .noEOF => (Json.null, false)
     let kf : List Json := match e with
       | .syntax _ true _ => [Json.str "typeRefMalformed"]
       | _ => []
+    -- the blamed token's index and, when the flag is down, tokens that complete the text before it to a document
+    let bef := toks.takeWhile (fun t => t.kind ≠ .eof)
+    let (blame, compl, cert) : Json × Json × Json := match e with
+      | .syntax _ bad left =>
+        let k := bef.length - left
+        let c : Json := if bad then Json.null else complJson (bef.take k)
+        (Json.num k, c, Json.bool (Grammar.certifiedCompletion (bef.take k)).isSome)
+      | _ => (Json.null, Json.null, Json.null)
     return Json.mkObj [("M", Json.mkObj [("ok", Json.bool false), ("errPos", pos), ("fuel", Json.bool fuel), ("astEq", Json.null),
-        ("noEOF", Json.bool (decide (e = .noEOF)))]),
-      ("S", s), ("kf", Json.arr kf.toArray)]
+        ("noEOF", Json.bool false)]),
+      ("S", s), ("kf", Json.arr kf.toArray), ("blame", blame), ("completion", compl), ("certified", cert)]
 
 end Driver.C03
 
